@@ -79,7 +79,20 @@ pub fn eval_field_sqrt(dc: &Decaf, x: &BigUint, square: bool, e: Option<u64>, cl
     Outcome::ok(class)
 }
 
-/// exponents e (discrete log of the 2-primary part) with their class label
+/// gamma with (gamma * odd-order)^M = (zeta^M)^-1: see `run`
+pub fn two_sylow_base(f: &refmodel::fld::Fld, zeta: &BigUint) -> BigUint {
+    let two47 = BigUint::one() << 47;
+    let m: BigUint = &f.t % &two47;
+    let minv = m.modpow(&((BigUint::one() << 46) - 1u32), &two47);
+    assert!((&m * &minv) % &two47 == BigUint::one());
+    let g0 = f.pow(zeta, &f.t);
+    let gam = f.pow(&g0, &(&two47 - &minv));
+    // binding check: gamma^M * zeta^M == 1
+    assert!(f.mul(&f.pow(&gam, &f.t), &g0) == BigUint::one());
+    gam
+}
+
+/// exponents e (= the table algorithm's t, see `two_sylow_base`) with their class label
 pub fn exponents(quick: bool) -> Vec<(u64, &'static str)> {
     let mut v: Vec<(u64, &'static str)> = vec![(0, "e=0")];
     // one non-zero base-256 digit, every value
@@ -87,6 +100,26 @@ pub fn exponents(quick: bool) -> Vec<(u64, &'static str)> {
         let maxd: u64 = if j == 5 { 127 } else { 255 };
         for d in 1..=maxd {
             v.push((d << (8 * j), "one-digit"));
+        }
+    }
+    // one non-zero WINDOW of the 7+8+8+8+8+8 split in which t is determined, every value
+    for d in 1..=127u64 {
+        v.push((d, "one-window"));
+    }
+    for j in 0..5u32 {
+        for d in 1..=255u64 {
+            v.push((d << (7 + 8 * j), "one-window"));
+        }
+    }
+    // one non-zero base-256 digit of the HALVED t' = (t+1)>>1 that indexes the result tables
+    for j in 0..6u32 {
+        let maxd: u64 = if j == 5 { 64 } else { 255 };
+        for d in 1..=maxd {
+            let e = (d << (8 * j)) << 1;
+            if e < (1u64 << 47) {
+                v.push((e, "halved-one-digit"));
+                v.push((e - 1, "halved-one-digit"));
+            }
         }
     }
     // two non-zero digits
@@ -130,9 +163,13 @@ pub fn run(ctx: &Arc<Ctx>) {
     let dc = Decaf::new();
     let f = dc.f().clone();
     let q = f.p.clone();
-    // g = zeta^M generates the 2-Sylow subgroup (order 2^47); tables g^(d*256^j)
-    let g = f.pow(&dc.zeta, &f.t);
+    // zeta^M generates the 2-Sylow subgroup (order 2^47). The table algorithm projects the ratio
+    // to x5 = ratio^M and then determines t with x5 * (zeta^M)^t = 1, window by window; every table
+    // index is a digit of (a prefix of) t. To make the algorithm's t EQUAL the enumerated e, the
+    // base is gamma with gamma^M = (zeta^M)^-1, i.e. gamma = (zeta^M)^(-M^-1 mod 2^47):
+    // ratio = gamma^e * h  =>  x5 = (zeta^M)^-e  =>  t = e.   tables gamma^(d*256^j)
     assert!(f.s == 47);
+    let g = two_sylow_base(&f, &dc.zeta);
     let mut tabs: Vec<Vec<BigUint>> = vec![];
     let mut base = g.clone();
     for _ in 0..6 {
